@@ -183,6 +183,10 @@ class Gen:
             if "k" in tv and "k" in fv:
                 fv = self.operand("I", depth)
             return {"call": "ite", "args": [self.operand("B", depth), tv, fv], "t": "I"}
+        if fam == "tobits" and r.random() < 0.2:
+            # pack / unpack of a secret through a bounded-integer packer (pack.py on top of to_bits/from_bits)
+            return {"call": "pack_roundtrip", "args": [self.operand("I", depth)],
+                    "m": r.choice([2, 3, 4, 5, 8, 1 << max(1, self.b - 1), (1 << self.b) + 1]), "t": "I"}
         if fam == "tobits":
             if r.random() < 0.25:
                 # recomposition of arbitrary secret integers (the classmethod does not require 0/1 entries)
@@ -530,6 +534,8 @@ class CodeGen:
         if c == "rawcond":
             # a raw 0/1 secret integer carrying a boolean's value
             return "(%s + 0)" % self.ex(e["args"][0])
+        if c == "pack_roundtrip":
+            return "(PackIntMod(%d).unpack(PackIntMod(%d).pack(%s), 0) + __zero__)" % (e["m"], e["m"], self.ex(e["args"][0]))
         if c == "if_else_method":
             a = [self.ex(x) for x in e["args"]]
             if e.get("raw"):
